@@ -33,7 +33,7 @@ from vsim.world import Deadlock, HarnessError, StepCap, Violation, World
 PROPERTY = "C14"
 LEVEL = "fault_enumeration"
 RULE = (
-    "base scenario of one close path (socket adapter, stream endpoint, async TCP client idle / with a back-pressured sender / still connecting (through wait_connected() or through a send_packet() holding the send lock) / built around a given socket and never used, "
+    "base scenario of one close path (socket adapter / stream endpoint incl. a close with > 256 KiB unread = transport that paused reading and does not see the peer's reset, async TCP client idle / with a back-pressured sender / still connecting (through wait_connected() or through a send_packet() holding the send lock) / built around a given socket and never used, "
     "server-side client with or without a sender holding the lock, teardown of the low-level server's connection task (handler returns / raises / peer half-closes / serving task group cancelled, with or without unsent bytes buffered against a peer that does not read), TLS aclose with a peer that answers close_notify promptly / late / never / FIN / RST, "
     "TLS wrap with a stalled / garbage / cut handshake or a server_hostname the ssl module rejects, stapled stream and datagram transports with a failing or slow first half, wrapped-transport errors at call n); "
     "fault = task.cancel() on the closing task before loop iteration j, for every j of the base run; a case is one (scenario, j); "
